@@ -442,10 +442,23 @@ func (x *Exec) Run() {
 	x.prop.Begin(x)
 	for i, op := range x.tr.Setup {
 		atomic.AddInt64(&progress, 1)
+		x.inSeqOp = true
 		out := x.w.invoke(op)
+		x.inSeqOp = false
 		x.seq++
 		if x.logOn {
 			x.logf("setup %d %s -> %s snap=%x", i, op, out, x.snapHash())
+		}
+		if strings.HasPrefix(out.Panic, "sim:reentrant") {
+			x.fail("deadlock:reentrant:"+op.M, fmt.Sprintf("%s: %s", op, out.Panic))
+			return
+		}
+		if len(x.seqHeld) > 0 && out.Panic == "" {
+			x.fail("lock-leaked:"+op.M, fmt.Sprintf("%s returned normally but left a stack mutex locked: every later locking call on that stack blocks forever", op))
+			return
+		}
+		for l := range x.seqHeld {
+			delete(x.seqHeld, l)
 		}
 		x.prop.AfterOp(x, -1, i, op, out)
 		if x.failed() {
